@@ -494,11 +494,12 @@ func substringFunc(arg1, arg2, arg3 query) func(query, iterator) interface{} {
 			panic(errors.New("substring() function first argument type must be number"))
 		}
 		// fix https://github.com/antchfx/xpath/issues/109
-		start = math.Round(start)
-		if start > float64(len(m)) {
-			return ""
-		}
+		// XPath round(): the closest integer, a tie goes towards positive infinity.
+		start = math.Floor(start + 0.5)
 		if arg3 == nil {
+			if start > float64(len(m)) || math.IsNaN(start) {
+				return ""
+			}
 			if start <= 0 {
 				return m
 			}
@@ -508,24 +509,20 @@ func substringFunc(arg1, arg2, arg3 query) func(query, iterator) interface{} {
 		if length, ok = functionArgs(arg3).Evaluate(t).(float64); !ok {
 			panic(errors.New("substring() function second argument type must be number"))
 		}
-		length = math.Round(length)
-		if length <= 0 {
+		length = math.Floor(length + 0.5)
+		// The result holds the characters at the (1-based) positions p with
+		// start <= p < start+length; positions outside the string do not exist.
+		first, last := start, start+length
+		if first < 1 {
+			first = 1
+		}
+		if last > float64(len(m))+1 {
+			last = float64(len(m)) + 1
+		}
+		if !(first < last) {
 			return ""
 		}
-		if length > float64(len(m)) {
-			length = float64(len(m))
-		}
-		if start < 0 {
-			length = length - math.Abs(start)
-			if length <= 1 {
-				return ""
-			}
-			return m[:int(length-1)]
-		}
-		if start == 0 {
-			return m[:int(length-1)]
-		}
-		return m[int(start-1):int(length+start-1)]
+		return m[int(first)-1 : int(last)-1]
 	}
 }
 
